@@ -5,6 +5,9 @@
 #include "gates.hpp"
 #include "iokinds.hpp"
 #include <thread>
+#include <mutex>
+#include <condition_variable>
+#include <functional>
 VH_MAIN_GLOBALS
 using namespace vh;
 
@@ -282,6 +285,35 @@ static void seeding() {
         if (b1 != b2) out.viol("seeding:same-seed-not-reproducible", J().s("note", "history before the re-seed influences the replay"));
         delete_TLweSample(tc); delete_TLweKey(TK); delete_TLweParams(TP); }
       delete_LweSample(c); delete_LweKey(K); delete_LweParams(P); }
+    // which thread draws must not matter: one generator state for the process. Draws made one after the other on the main
+    // thread, on fresh threads and on a long-lived worker are all different; the whole history replays after a re-seed;
+    // a re-seed made on one thread governs what the other threads draw afterwards (a key generated on a worker after the
+    // application seeded with entropy on its main thread depends on that entropy).
+    { LweParams *P = new_LweParams(64, ldexp(1., -15), 0.25);
+      auto draw = [&](std::string *o) { LweKey *K = new_LweKey(P); lweKeyGen(K); LweSample *c = new_LweSample(P); lweSymEncrypt(c, 1 << 29, ldexp(1., -15), K);
+          o->assign((const char *) K->key, 256); o->append((const char *) c->a, 256); o->append((const char *) &c->b, 4); delete_LweSample(c); delete_LweKey(K); };
+      auto fresh_thread = [&](std::string *o) { std::thread t(draw, o); t.join(); };
+      struct Worker { std::thread th; std::mutex m; std::condition_variable cv; std::function<void()> job; bool has = false, stop = false, done = false;
+          Worker() { th = std::thread([this] { std::unique_lock<std::mutex> l(m); for (;;) { cv.wait(l, [this] { return has || stop; }); if (stop) return; job(); has = false; done = true; cv.notify_all(); } }); }
+          void run(std::function<void()> f) { std::unique_lock<std::mutex> l(m); job = f; has = true; done = false; cv.notify_all(); cv.wait(l, [this] { return done; }); }
+          ~Worker() { { std::lock_guard<std::mutex> l(m); stop = true; } cv.notify_all(); th.join(); } };
+      Worker W; std::string w0; W.run([&] { draw(&w0); });          // the worker exists, and has drawn, before any of the re-seeds below
+      auto history = [&](uint64_t sd, std::vector<std::string> &h) { h.assign(6, ""); seed_library(sd); draw(&h[0]); fresh_thread(&h[1]); W.run([&] { draw(&h[2]); }); fresh_thread(&h[3]); draw(&h[4]); W.run([&] { draw(&h[5]); }); };
+      static const char *who[] = {"main", "fresh-thread-1", "worker", "fresh-thread-2", "main-again", "worker-again"};
+      std::vector<std::string> h1, h1b, h2;
+      history(s1, h1); history(s1, h1b); history(s2, h2);
+      for (int i = 0; i < 6; i++) for (int j = i + 1; j < 6; j++) { out.evaluations++;
+          bool keq = memcmp(h1[i].data(), h1[j].data(), 256) == 0, meq = memcmp(h1[i].data() + 256, h1[j].data() + 256, 256) == 0;
+          if (keq || meq) out.viol("seeding:draws-on-different-threads-identical", J().s("first", who[i]).s("second", who[j]).b("keys_equal", keq).b("masks_equal", meq).u("seed", s1)); }
+      for (int i = 0; i < 6; i++) { out.evaluations += 2;
+          if (h1[i] != h1b[i]) out.viol("seeding:same-seed-not-reproducible", J().s("drawn_on", who[i]).s("note", "the re-seed was made on the main thread").u("seed", s1));
+          if (h1[i] == h2[i] || memcmp(h1[i].data(), h2[i].data(), 256) == 0) out.viol("seeding:different-seeds-same-output", J().s("drawn_on", who[i]).s("note", "the re-seeds were made on the main thread").u("seed1", s1).u("seed2", s2)); }
+      { out.evaluations++; if (memcmp(w0.data(), h1[2].data(), 256) == 0) out.viol("seeding:draws-on-different-threads-identical", J().s("first", "worker-before-reseed").s("second", "worker")); }
+      // a re-seed made on a worker governs the main thread as well
+      { std::string a1, a2; W.run([&] { seed_library(s1 + 17); }); draw(&a1); W.run([&] { seed_library(s1 + 17); }); draw(&a2); out.evaluations++;
+        if (a1 != a2) out.viol("seeding:same-seed-not-reproducible", J().s("drawn_on", "main").s("note", "the re-seed was made on a worker thread")); }
+      delete_LweParams(P);
+      out.cell("seeding:threads:pairwise-different", 15); out.cell("seeding:threads:replay", 6); out.cell("seeding:threads:different-seeds", 6); out.cell("seeding:threads:reseed-on-worker"); }
     out.cell("seeding:replay-after-odd-and-even-draw-counts");
     out.cell("seeding:reproducible"); out.cell("seeding:different-seeds"); out.cell("seeding:two-encryptions"); out.cell("seeding:multi-word-seed");
     out.sample(J().s("mode", "seeding").u("seed", s1).u("secret_export_bytes", a.size()));
@@ -304,6 +336,18 @@ int main(int argc, char **argv) {
         else { PSet ps(40, 1024, 2, 2, 9, 5, 3, ldexp(1., -18), ldexp(1., -28)); key_rows(ps.gb, "custom-n40-k2:seed" + std::to_string(seed), 1024, args.i("threads", 8)); }
     } else if (mode == "ksrows") ks_rows_mode(args.i("n_in", 16384), args.i("n_out", 8), args.d("alpha", ldexp(1., -15)));
     else if (mode == "seeding") seeding();
+    else if (mode == "tail") {
+        // the sampler itself, far into its tails: a bootstrapping key of the 128-bit set makes 3.9e6 draws, so an event of
+        // probability 1e-9 per draw spoils one key in a few hundred. count draws at one sigma, all moments + the maximum
+        double alpha = args.d("alpha", ldexp(1., -25)); uint64_t count = (uint64_t) args.d("count", 1e8);
+        Mom m; uint64_t over5 = 0, over6 = 0; const double s5 = 5 * alpha * 4294967296.0, s6 = 6 * alpha * 4294967296.0;
+        VH_OP("gaussian32-tail:alpha=%g", alpha);
+        for (uint64_t i = 0; i < count; i++) { Torus32 mu = (Torus32) (i * 2654435761u); double e = (double) (int32_t) ((U) gaussian32(mu, alpha) - (U) mu); m.add(e); double a = fabs(e); over5 += a > s5; over6 += a > s6; }
+        out.evaluations += count;
+        char cell[96]; snprintf(cell, sizeof cell, "gaussian32-tail:alpha=2^%.2f", log2(alpha));
+        emit_mom(cell, m, alpha, "trunc-gaussian", 0, J().u("beyond_5_sigma", over5).u("beyond_6_sigma", over6));
+        out.sample(J().s("mode", "tail").d("alpha", alpha).u("draws", count).d("max_over_sigma", m.mx / (alpha * 4294967296.0)).u("beyond_5_sigma", over5).u("beyond_6_sigma", over6));
+    }
     out.finish();
     return 0;
 }
